@@ -92,10 +92,17 @@ Theorem C12_terminates : forall l sched,
 Proof. exact run_terminates. Qed.
 Print Assumptions C12_terminates.
 
-(* the correspondence compares observations exactly *)
-Theorem C12_obs_eqb : forall a b, obs_eqb a b = true <-> a = b.
+(* the correspondence compares observations through Corr.C12.alpha: everything when every thread reports
+   well-formed tests; otherwise (a thread using its forwarder in a way the statement does not fix the log of)
+   the own logs of the well-formed threads, the semaphore and the deadlock flag - the section structure of the
+   implementation's whole log is judged by spec_okb in either case *)
+Theorem C12_obs_eqb : forall a b, obs_eqb a b = true <-> alpha a = alpha b.
 Proof. exact obs_eqb_spec. Qed.
 Print Assumptions C12_obs_eqb.
+
+Theorem C12_obs_exact : forall a b, forallb (fun x => x) (o_wf a) = true -> alpha a = alpha b -> a = b.
+Proof. exact alpha_exact. Qed.
+Print Assumptions C12_obs_exact.
 
 (* non-vacuity: two threads, tags, a fault in thread 0's tags call (call number 3) under a schedule
    that switches in the middle of thread 0's first block: thread 1 cannot get in *)
